@@ -2859,6 +2859,13 @@ impl<T: Storage> Raft<T> {
         let prev_timeout = self.randomized_election_timeout;
         let timeout =
             rand::thread_rng().gen_range(self.min_election_timeout..self.max_election_timeout);
+        #[cfg(feature = "tikv_raft_rs_verif")]
+        let timeout = crate::verif_export::election_timeout_override(
+            self.id,
+            self.min_election_timeout,
+            self.max_election_timeout,
+        )
+        .unwrap_or(timeout);
         debug!(
             self.logger,
             "reset election timeout {prev_timeout} -> {timeout} at {election_elapsed}",
@@ -2949,6 +2956,20 @@ impl<T: Storage> Raft<T> {
     #[inline]
     pub fn uncommitted_size(&self) -> usize {
         self.uncommitted_state.uncommitted_size
+    }
+
+    /// Verification hook: copies private fields into a view.
+    #[cfg(feature = "tikv_raft_rs_verif")]
+    pub(crate) fn verif_fill_view(&self, v: &mut crate::verif_export::VerifView) {
+        v.heartbeat_elapsed = self.heartbeat_elapsed;
+        v.randomized_election_timeout = self.randomized_election_timeout;
+        v.uncommitted_size = self.uncommitted_state.uncommitted_size;
+        v.max_uncommitted_size = self.uncommitted_state.max_uncommitted_size;
+        v.last_log_tail_index = self.uncommitted_state.last_log_tail_index;
+        v.promotable = self.promotable;
+        v.skip_bcast_commit = self.skip_bcast_commit;
+        v.batch_append = self.batch_append;
+        v.max_committed_size_per_ready = self.max_committed_size_per_ready;
     }
 
     /// A Raft leader allocates a vector with capacity `max_inflight_msgs` for every peer.
